@@ -151,9 +151,13 @@ def model_b(case):
     nested = [['enum', 'Res', ['Ok', 'No']]]
     if case.get('nested'):
         nested.append(['enum', 'X', ['Ok']])      # declared inside the referring interface itself
-    doc += nest(itf_scope, [['interface', 'I', nested, events]], case.get('multi'))
+    # 'selfname': the referring interface itself carries the searched simple name (X) - it is then a declaration on
+    # its own scope chain
+    iname = 'X' if case.get('selfname') else 'I'
+    doc += nest(itf_scope, [['interface', iname, nested, events]], case.get('multi'))
     direction = case.get('dir', 'provides')
-    doc += nest(itf_scope, [['component', 'Comp', [['p', ['I'], direction, False]]]], case.get('multi'))
+    ptype = (itf_scope + ['X']) if case.get('selfname') else [iname]      # (self-named: the port type is fully qualified)
+    doc += nest(itf_scope, [['component', 'Comp', [['p', ptype, direction, False]]]], case.get('multi'))
     return {'doc': doc, 'encapsulee': itf_scope + ['Comp'], 'file': 'M.dzn'}
 
 
@@ -163,12 +167,20 @@ PARAM_RE = re.compile(r'\.(?:in|out)\.(\w+) = \[&(?:, identifier)?\]\(([^)]*)\) 
 def judge_b(case):
     model = model_b(case)
     decls = M.declarations(model['doc'])
-    hits = M.lookup(decls, case['spell'], case['scope'] + ['I'])
+    hits = M.lookup(decls, case['spell'], case['scope'] + ['X' if case.get('selfname') else 'I'])
     cfg = dict(ALL_MTS if case.get('sem', 'MTS') == 'MTS' else ALL_STS)
     if case.get('mc'):
         cfg['mc'] = {'port': 'p', 'claim': 'Claim', 'grant': 'Ok', 'release': 'Release'}
     verdict, detail = attempt(model, cfg)
     desc = f'{case} reference hits={hits} library={verdict} {detail if verdict != "OK" else ""}'
+    if case.get('selfname'):
+        # the PORT type is written X as well: if that lookup (from the component's scope) is not a unique interface the
+        # build has to fail whatever the formal types are
+        phits = M.lookup(decls, case['scope'] + ['X'], case['scope'])
+        if not (len(phits) == 1 and phits[0].kind == 'interface'):
+            if verdict == 'OK':
+                return [(f'unresolvable-port-type-accepted:{len(phits)}hits', desc)]
+            return [(f'port-type-crash:{detail.split(":")[0]}', desc)] if verdict == 'CRASH' else []
     if case.get('sem', 'MTS') == 'STS':
         # STS ports do not use formal types: nothing demanded except no wrong pick
         return [(f'sts-crash:{detail.split(":")[0]}', desc)] if verdict == 'CRASH' and len(hits) == 1 \
@@ -301,6 +313,14 @@ def cases():
                 yield {'kind': 'b', 'assign': list(assign), 'scope': scope, 'spell': spell, 'mc': True}
                 if scope == ['A', 'B']:
                     yield {'kind': 'b', 'assign': list(assign), 'scope': scope, 'spell': spell, 'sem': 'STS'}
+    # the referring interface is itself named X (placements in its own scope are then impossible: skipped by validity)
+    for assign in itertools.product(KIND3, repeat=5):
+        for scope in ([], ['A'], ['A', 'B']):
+            if assign[SCOPES.index(scope)] != 'absent':
+                continue            # another X in the interface's own scope would be a redeclaration
+            for spell in SPELL_X:
+                yield {'kind': 'b', 'assign': list(assign), 'scope': scope, 'spell': spell, 'selfname': True}
+                yield {'kind': 'b', 'assign': list(assign), 'scope': scope, 'spell': spell, 'selfname': True, 'mc': True}
     # REPRESENTATION: declarations written with multi-identifier names at root level
     for assign in itertools.product(KIND3, repeat=5):
         for scope in (['A'], ['A', 'B']):
